@@ -558,6 +558,97 @@ func BinaryFields(base []byte, c Config) Class {
 
 var chunkLens = []int{1, 2, 4, 8, 16, 32}
 
+func gcd(a, b uint64) uint64 {
+	for b != 0 {
+		a, b = b, a%b
+	}
+	return a
+}
+
+// RelativeFields is the class for length, count and offset fields that are interpreted relative to a position in the
+// input. A field is taken to be every 2- or 4-byte window, in either byte order, whose signed value is non-zero and no
+// larger in magnitude than the input (real length fields and small integers qualify; key material and timestamps do not).
+// Each such field is given every signed value that makes it point at another offset of the input: from "back to the
+// start" (-(pos+width)) to "just beyond the end" (len-pos+8). This reaches the values that the fixed hostile list does
+// not: a negative length that leads a parser back to a record it has already read, a length that ends exactly on
+// another record's boundary, an offset one short of the end. The quick tier samples the space uniformly (cap cases).
+func RelativeFields(base []byte, c Config, cap int) Class {
+	type field struct {
+		pos, w int
+		le     bool
+		orig   int64
+	}
+	var fs []field
+	for pos := 0; pos < len(base); pos++ {
+		for _, w := range []int{2, 4} {
+			if pos+w > len(base) {
+				continue
+			}
+			for _, le := range []bool{false, true} {
+				var v int64
+				switch {
+				case w == 2 && le:
+					v = int64(int16(binary.LittleEndian.Uint16(base[pos:])))
+				case w == 2:
+					v = int64(int16(binary.BigEndian.Uint16(base[pos:])))
+				case le:
+					v = int64(int32(binary.LittleEndian.Uint32(base[pos:])))
+				default:
+					v = int64(int32(binary.BigEndian.Uint32(base[pos:])))
+				}
+				if v == 0 || v > int64(len(base))+8 || -v > int64(len(base))+8 {
+					continue
+				}
+				fs = append(fs, field{pos, w, le, v})
+			}
+		}
+	}
+	span := len(base) + 8 + 8 + 1 // values -span..span-1; a common span for all fields keeps the indexing simple
+	n := len(fs) * 2 * span
+	stride := 1
+	if cap > 0 && n > cap {
+		stride = (n + cap - 1) / cap
+	}
+	off := 0
+	if stride > 1 {
+		off = int(Mix(c.Seed, 7) % uint64(stride))
+	}
+	cnt := 0
+	if n > 0 {
+		cnt = (n - off + stride - 1) / stride
+	}
+	mult := uint64(40503) // n < 2^40 here, so idx*mult stays below 2^64
+	for n > 0 && gcd(mult, uint64(n)) != 1 {
+		mult += 2
+	}
+	return Class{Name: "relfield", N: cnt, Build: func(k int) []byte {
+		idx := off + k*stride
+		if stride > 1 {
+			// decorrelate the sample from the field order (a bijection on [0,n): the multiplier is coprime with n)
+			idx = int((uint64(idx)%uint64(n)*mult + Mix(c.Seed, 8)%uint64(n)) % uint64(n))
+		}
+		f := fs[idx/(2*span)]
+		r := idx % (2 * span)
+		v := int64(r - span) // -span .. span-1
+		if v < -int64(f.pos+f.w) || v > int64(len(base)-f.pos+8) || v == f.orig {
+			return nil
+		}
+		m := clone(base)
+		g := m[f.pos : f.pos+f.w]
+		switch {
+		case f.w == 2 && f.le:
+			binary.LittleEndian.PutUint16(g, uint16(v))
+		case f.w == 2:
+			binary.BigEndian.PutUint16(g, uint16(v))
+		case f.le:
+			binary.LittleEndian.PutUint32(g, uint32(v))
+		default:
+			binary.BigEndian.PutUint32(g, uint32(v))
+		}
+		return m
+	}}
+}
+
 // Chunks is the class of element deletion / duplication for formats without self-describing
 // elements: at every offset a run of 1,2,4,8,16,32 bytes is deleted or duplicated.
 func Chunks(base []byte, c Config) Class {
@@ -738,6 +829,13 @@ func Classes(base []byte, kind Kind, c Config) []Class {
 		out = append(out, DERLengths(base), DERElements(base))
 	case Binary:
 		out = append(out, BinaryFields(base, c), Chunks(base, c))
+		rc := 0
+		if !c.Thorough {
+			rc = 5 * c.QuickCap
+		} else {
+			rc = 2000000
+		}
+		out = append(out, RelativeFields(base, c, rc))
 	case Text:
 		out = append(out, Lines(base, c), Chunks(base, c))
 	}
@@ -800,67 +898,95 @@ func MeasureExact(f func()) uint64 {
 // an exceedance that was already confirmed, so that the fingerprint of an unbounded allocation
 // names the code that makes it and not only the entry point through which it was reached.
 func AllocSite(f func()) (site string) {
-	type key [32]uintptr
-	snap := func() map[key]int64 {
-		runtime.GC()
-		runtime.GC()
-		n, _ := runtime.MemProfile(nil, true)
-		for {
-			recs := make([]runtime.MemProfileRecord, n+64)
-			m, ok := runtime.MemProfile(recs, true)
-			if !ok {
-				n = m
-				continue
-			}
-			out := make(map[key]int64, m)
-			for _, r := range recs[:m] {
-				out[key(r.Stack0)] += r.AllocBytes
-			}
-			return out
-		}
-	}
 	old := runtime.MemProfileRate
 	runtime.MemProfileRate = 1
-	before := snap()
+	before := memSnapshot()
 	func() {
 		defer func() { recover() }()
 		f()
 	}()
-	after := snap()
+	after := memSnapshot()
 	runtime.MemProfileRate = old
-	var best key
-	var bestN int64
+	type cand struct {
+		k stackKey
+		d int64
+	}
+	var cands []cand
 	for k, v := range after {
-		if d := v - before[k]; d > bestN {
-			best, bestN = k, d
+		if d := v - before[k]; d > 0 {
+			cands = append(cands, cand{k, d})
 		}
 	}
-	if bestN == 0 {
+	sort.Slice(cands, func(i, j int) bool { return cands[i].d > cands[j].d })
+	debug := os.Getenv("HOSTILE_ALLOC_DEBUG") != ""
+	for i, c := range cands {
+		n := 0
+		for n < len(c.k) && c.k[n] != 0 {
+			n++
+		}
+		frames := runtime.CallersFrames(c.k[:n])
+		inner, fallback, own := "", "", false
+		var all []string
+		for {
+			fr, more := frames.Next()
+			fn := fr.Function
+			all = append(all, fn)
+			switch {
+			case fn == "verif/hostile.memSnapshot":
+				own = true // the snapshot's own record buffer: not part of the call
+			case inner == "" && strings.HasPrefix(fn, "github.com/jcmturner/"):
+				inner = fn
+			case fallback == "" && fn != "" && !strings.HasPrefix(fn, "runtime.") && !strings.HasPrefix(fn, "reflect."):
+				fallback = fn
+			}
+			if !more {
+				break
+			}
+		}
+		if debug && i < 5 {
+			fmt.Fprintf(os.Stderr, "ALLOC %d bytes (own=%v): %s\n", c.d, own, strings.Join(all, " "))
+		}
+		if own {
+			continue
+		}
+		if site == "" {
+			switch {
+			case inner != "":
+				site = inner
+			case fallback != "":
+				site = fallback
+			}
+			if !debug && site != "" {
+				return site
+			}
+		}
+	}
+	if site == "" {
 		return "unattributed"
 	}
-	n := 0
-	for n < len(best) && best[n] != 0 {
-		n++
-	}
-	frames := runtime.CallersFrames(best[:n])
-	fallback := ""
+	return site
+}
+
+type stackKey [32]uintptr
+
+// memSnapshot returns the cumulative bytes allocated per allocation stack, as published after two collections.
+func memSnapshot() map[stackKey]int64 {
+	runtime.GC()
+	runtime.GC()
+	n, _ := runtime.MemProfile(nil, true)
 	for {
-		fr, more := frames.Next()
-		fn := fr.Function
-		if strings.HasPrefix(fn, "github.com/jcmturner/") {
-			return fn
+		recs := make([]runtime.MemProfileRecord, n+64)
+		m, ok := runtime.MemProfile(recs, true)
+		if !ok {
+			n = m
+			continue
 		}
-		if fallback == "" && fn != "" && !strings.HasPrefix(fn, "runtime.") && !strings.HasPrefix(fn, "reflect.") {
-			fallback = fn
+		out := make(map[stackKey]int64, m)
+		for _, r := range recs[:m] {
+			out[stackKey(r.Stack0)] += r.AllocBytes
 		}
-		if !more {
-			break
-		}
+		return out
 	}
-	if fallback == "" {
-		return "unattributed"
-	}
-	return fallback
 }
 
 // ---------------------------------------------------------------------------------------
